@@ -1,8 +1,10 @@
 package rules
 
 import (
+	"fmt"
 	"go/token"
 	"go/types"
+	"os"
 	"sort"
 	"strings"
 
@@ -207,6 +209,10 @@ func c14(w *core.World, r *core.Report) {
 
 	r.Rule("R14.10", "sync mode executes a received unit once: an error ends the replay, the unit is not re-run", 1)
 	ruleSyncUnitExecutedOnce(w, r)
+	r.Rule("R14.11", "a completed full sync leaves a baseline frontier (after removing the replaced position's journal) before its root checkpoint, so that the journal always continues a stored frontier", 2)
+	ruleBaselineFrontier(w, r)
+	r.Rule("R14.12", "a root checkpoint that overrides the stored frontier removes the journal and then the snapshot it replaces", 2)
+	ruleRootOverrideDropsFrontierState(w, r)
 	r.Rule("R14.9", "every valid replay mode is claimed by exactly one recovery format (UsesLatest xor UsesFrontier)", 3)
 	ruleModeFamilies(w, r)
 
@@ -429,8 +435,50 @@ func ruleSaveBeforeDelete(w *core.World, r *core.Report) {
 	}
 	n := 0
 	var check func(site core.Site, depth int) (bool, string)
+	// positionReplaced: the records do not lie beyond a frontier that is in force, they belong to a position
+	// that is being replaced as a whole: (a) by the baseline frontier of a completed full sync — the deletion
+	// is followed, on every path to a successful return, by the save of a frontier that was not loaded or
+	// rebuilt from the target (order and failure handling: R14.11); (b) by the root checkpoint, on the
+	// override edge of the start point (R14.12). A stop in between leaves the old frontier (a) or the root
+	// (b) in force: the resume point still ends a committed unit with every earlier unit committed.
+	positionReplaced := func(site core.Site) bool {
+		okReturn := func(in ssa.Instruction) bool {
+			ret, isRet := in.(*ssa.Return)
+			return isRet && len(ret.Results) > 0 && core.IsNilConst(ret.Results[len(ret.Results)-1])
+		}
+		freshSave := func(in ssa.Instruction) bool {
+			sv, ok := isSave(in)
+			if !ok {
+				return false
+			}
+			c := sv.(*ssa.Call)
+			return len(c.Call.Args) >= 3 && !core.DependsOn(c.Call.Args[2], func(v ssa.Value) bool {
+				lc, ok := v.(*ssa.Call)
+				if !ok {
+					return false
+				}
+				n := core.ResolveCall(lc).Name
+				return n == "pkg/redis/checkpoint.LoadBisyncFrontierSnapshot" || n == "pkg/redis/checkpoint.RebuildBisyncFrontier"
+			})
+		}
+		hasSave := false
+		for _, in := range core.OwnInstrs(site.Instr.Parent()) {
+			if freshSave(in) {
+				hasSave = true
+			}
+		}
+		if hasSave && failureReturned(site.Instr.Parent(), site) && core.PathFrom(site.Instr.Parent(), site.Instr, okReturn, freshSave) == nil {
+			return true
+		}
+		for _, fct := range core.FactsAt(site.Instr.Block()) {
+			if c, ok := core.Unwrap(fct.Cond).(*ssa.Call); ok && fct.Val && strings.HasSuffix(core.ResolveCall(c).Name, "RedisOutput).bisyncRootCheckpointNewer") {
+				return true
+			}
+		}
+		return false
+	}
 	check = func(site core.Site, depth int) (bool, string) {
-		if dominatedBySave(site.Instr) {
+		if dominatedBySave(site.Instr) || positionReplaced(site) {
 			return true, ""
 		}
 		if depth > 3 {
@@ -1096,4 +1144,210 @@ func consumedFromFront(ia *ssa.IndexAddr) (ssa.Value, bool) {
 		return nil, false
 	}
 	return base, true
+}
+
+// ---------------------------------------------------------------- R14.11 / R14.12 the stored frontier state always belongs to the position in force
+
+// callsInto: f, or a function of its package it reaches by static calls (closures included), calls target.
+func callsInto(f *ssa.Function, target string) bool {
+	if f == nil || len(f.Blocks) == 0 {
+		return false
+	}
+	for _, g := range reachableFuncs(f) {
+		if len(core.SitesNamed(g, false, target)) > 0 {
+			return true
+		}
+	}
+	return false
+}
+
+// ruleBaselineFrontier (R14.11): the journal of committed units is readable
+// only relative to a stored frontier (or from sequence 1). A full sync that
+// completes in a frontier mode must therefore leave a frontier at its end
+// offset before the root checkpoint says "the snapshot is in": otherwise a stop
+// that leaves a later unit journalled while the first one is in flight makes
+// every following start fail with ErrBisyncJournalGap — the link never resumes
+// (W28). What the journal still holds belongs to the position the full sync
+// replaces and is numbered in the same space: it is removed before the
+// baseline is stored, so that a record left above a hole cannot be chained onto
+// the units that follow the snapshot.
+func ruleBaselineFrontier(w *core.World, r *core.Report) {
+	f := fn(w, r, "(*syncer.RedisOutput).sendRdb")
+	if f == nil {
+		return
+	}
+	const save = "pkg/redis/checkpoint.SaveBisyncFrontierSnapshot"
+	const del = "pkg/redis/checkpoint.DeleteBisyncCommitKeys"
+	var root core.Site
+	for _, s := range core.Sites(f, false) {
+		if s.Instr.Parent() == f && strings.HasSuffix(s.Name, "RedisOutput).setCheckpoint") {
+			root = s
+		}
+	}
+	if root.Instr == nil {
+		r.Unresolved("sendRdb/root-checkpoint", "the root checkpoint write of a completed full sync was not found")
+		return
+	}
+	isSave := func(in ssa.Instruction) bool {
+		ci, ok := in.(ssa.CallInstruction)
+		if !ok {
+			return false
+		}
+		s := core.ResolveCall(ci)
+		return s.Name == save || callsInto(s.Callee, save)
+	}
+	// the guard: `if ro.bisyncEnabled()` whose true edge leads to the root checkpoint
+	var guard *ssa.If
+	for _, b := range f.Blocks {
+		iff, ok := b.Instrs[len(b.Instrs)-1].(*ssa.If)
+		if !ok {
+			continue
+		}
+		c, ok := core.Unwrap(iff.Cond).(*ssa.Call)
+		if !ok || !strings.HasSuffix(core.ResolveCall(c).Name, "RedisOutput).bisyncEnabled") {
+			continue
+		}
+		if b.Dominates(root.Instr.Block()) {
+			guard = iff // the innermost one wins: blocks are visited in order, later ones are nearer
+		}
+	}
+	if guard == nil {
+		r.Fail("sendRdb/baseline-frontier-before-root", root.Pos(), "no bidirectional branch precedes the root checkpoint of a completed full sync: in the frontier modes nothing stores a frontier for the journal to continue from")
+		return
+	}
+	isRoot := func(in ssa.Instruction) bool { return in == root.Instr }
+	esc := core.PathFromBlock(guard.Block().Succs[0], isRoot, isSave)
+	var saveSite core.Site
+	for _, s := range core.Sites(f, false) {
+		if s.Instr.Parent() == f && isSave(s.Instr) {
+			saveSite = s
+		}
+	}
+	okFail := saveSite.Instr != nil && failureReturned(f, saveSite)
+	r.Check(esc == nil && okFail, "sendRdb/baseline-frontier-before-root", root.Pos(), "in bidirectional mode the root checkpoint of a completed full sync is written on a path that did not store a frontier at the snapshot's end (or went on after failing to): with the first unit in flight and a later one journalled, a stop before the first frontier flush leaves a journal no start can read (ErrBisyncJournalGap on every restart) (path without it: %v, failure ends the full sync: %v)", esc != nil, okFail)
+	// the old journal goes first, in the function that stores the baseline
+	okOrder, found := false, false
+	var pos token.Pos = f.Pos()
+	for _, g := range reachableFuncs(f) {
+		for _, s := range core.SitesNamed(g, false, save) {
+			if s.Instr.Parent() != g {
+				continue
+			}
+			found = true
+			pos = s.Pos()
+			for _, j := range core.Sites(g, false) {
+				if j.Instr.Parent() != g || !(j.Name == del || callsInto(j.Callee, del)) {
+					continue
+				}
+				if core.Dominates(j.Instr, s.Instr) && failureReturned(g, j) {
+					okOrder = true
+				}
+			}
+		}
+	}
+	if !found {
+		return
+	}
+	r.Check(okOrder, "sendRdb/baseline-after-journal-drop", pos, "the baseline frontier continues the sequence numbers of the position the full sync replaces; the journal records of that position must be removed (successfully) before it is stored, otherwise a record left above a hole is chained onto the units that follow the snapshot and a never-committed unit is skipped")
+}
+
+// ruleRootOverrideDropsFrontierState (R14.12): when the root checkpoint is
+// newer than the stored frontier the replay resumes from the root and numbers
+// its units from 1 again. The frontier snapshot and the journal left on the
+// target number the units of the abandoned position; a later start would chain
+// new records onto them (or an old record onto new ones) and resume behind a
+// unit that was never committed (W29). On the override edge of
+// bisyncStartPoint every path to a successful return removes the journal and
+// the snapshot, the snapshot last.
+func ruleRootOverrideDropsFrontierState(w *core.World, r *core.Report) {
+	f := fn(w, r, "(*syncer.RedisOutput).bisyncStartPoint")
+	if f == nil {
+		return
+	}
+	const del = "pkg/redis/checkpoint.DeleteBisyncCommitKeys"
+	dropsSnapshot := func(g *ssa.Function) (core.Site, *ssa.Function) {
+		for _, h := range reachableFuncs(g) {
+			for _, s := range core.Sites(h, false) {
+				if s.Instr.Parent() != h || s.Method != "Do" {
+					continue
+				}
+				if cmd, ok := core.CmdName(s); !ok || cmd != "del" {
+					continue
+				}
+				a := s.Args()
+				if core.DependsOn(a[len(a)-1], isResultOf("pkg/redis/checkpoint.BisyncFrontierKey", -1)) {
+					return s, h
+				}
+			}
+		}
+		return core.Site{}, nil
+	}
+	n := 0
+	for _, b := range f.Blocks {
+		iff, ok := b.Instrs[len(b.Instrs)-1].(*ssa.If)
+		if !ok {
+			continue
+		}
+		c, ok := core.Unwrap(iff.Cond).(*ssa.Call)
+		if !ok || !strings.HasSuffix(core.ResolveCall(c).Name, "RedisOutput).bisyncRootCheckpointNewer") {
+			continue
+		}
+		// the override of a rebuilt frontier (the 'latest' records of sync mode are overwritten in place and
+		// chosen by offset: nothing is chained onto them)
+		rebuilt := false
+		for _, rs := range core.SitesNamed(f, false, "pkg/redis/checkpoint.RebuildBisyncFrontier") {
+			if rs.Instr.Parent() == f && core.Dominates(rs.Instr, iff) {
+				rebuilt = true
+			}
+		}
+		if !rebuilt {
+			continue
+		}
+		n++
+		var drop core.Site
+		isDrop := func(in ssa.Instruction) bool {
+			ci, ok := in.(ssa.CallInstruction)
+			if !ok {
+				return false
+			}
+			s := core.ResolveCall(ci)
+			if s.Callee == nil || !callsInto(s.Callee, del) {
+				return false
+			}
+			if snap, _ := dropsSnapshot(s.Callee); snap.Instr == nil {
+				return false
+			}
+			drop = s
+			return true
+		}
+		okReturn := func(in ssa.Instruction) bool {
+			ret, isRet := in.(*ssa.Return)
+			if !isRet || len(ret.Results) == 0 {
+				return false
+			}
+			return core.IsNilConst(ret.Results[len(ret.Results)-1])
+		}
+		esc := core.PathFromBlock(b.Succs[0], okReturn, isDrop)
+		okFail := drop.Instr != nil && failureReturned(f, drop)
+		if os.Getenv("GC_DEBUG") == "R14.12" {
+			fmt.Fprintln(os.Stderr, "DEBUG drop", drop.Instr, drop.Name, drop.Instr != nil)
+		}
+		r.Check(esc == nil && okFail, "bisyncStartPoint/root-override-drops-frontier-state", c.Pos(), "the root checkpoint takes over (unit numbering restarts at 1) on a path that leaves the old frontier snapshot or its journal on the target, or goes on after failing to remove them: a later start chains new journal records onto the old sequence numbers and resumes behind a unit that was never committed (path without removal: %v, failure stops the start: %v)", esc != nil, okFail)
+		if drop.Instr != nil {
+			// the snapshot goes last: while it exists an interrupted removal is repeated by the next start
+			snap, h := dropsSnapshot(drop.Callee)
+			last := false
+			if snap.Instr != nil {
+				for _, j := range core.Sites(h, false) {
+					if j.Instr.Parent() == h && j.Callee != nil && callsInto(j.Callee, del) && core.Dominates(j.Instr, snap.Instr) && failureReturned(h, j) {
+						last = true
+					}
+				}
+			}
+			r.Check(last, "bisyncStartPoint/root-override-snapshot-last", drop.Pos(), "the frontier snapshot must be removed after the journal (and only when that succeeded): a journal left without the snapshot its numbers continue cannot be read by the next start")
+		}
+	}
+	if n == 0 {
+		r.Fail("bisyncStartPoint/root-override-drops-frontier-state", f.Pos(), "the root-override decision was not found")
+	}
 }
